@@ -46,6 +46,10 @@ THEOREMS = [
     "SynKit.Match.isoDecide_relabel_pattern",
     "SynKit.Match.isoDecide_symm",
     "SynKit.Match.isoDecide_refl",
+    "SynKit.GME.wl_refined_sound",
+    "SynKit.GME.preCheck_sound",
+    "SynKit.GME.get_mappings_nonempty_iff_contained",
+    "SynKit.GME.isomorphic_iff",
 ]
 
 NODE_ATTRS = [["element"], ["element", "charge"], ["element", "charge"], []]
@@ -378,7 +382,10 @@ def gen_histories(ctx, count):
                 graphs.append(g3)
             engines = [{"node_attrs": na, "edge_attrs": rnd.choice(EDGE_ATTRS), "wl1_filter": rnd.random() < 0.85,
                         "max_mappings": rnd.choice([1, None])}
-                       for na in rnd.sample([["element"], ["element", "charge"], [], ["charge"]], rnd.randint(2, 3))]
+                       # incl. a permutation of a selection (hcount is not used here: it may be absent on some
+                       # nodes, and an engine with wl1_filter sorts labels, which raises on None vs int)
+                       for na in rnd.sample([["element"], ["element", "charge"], [], ["charge"], ["charge", "element"]],
+                                            rnd.randint(2, 4))]
             qs = []
             for _ in range(rnd.randint(2, 6)):
                 a, b = rnd.sample(range(len(graphs)), 2)
